@@ -356,3 +356,22 @@ def t_solend_total(world):
 _t_st = tasks
 def tasks(tier):
     return _t_st(tier) + [('solend_total', t_solend_total)]
+
+
+def t_solend_stale(world):
+    eng = world.engine(primary='solend', extra=('typecrate',))
+    f = world.fn(r'SolendMinimalReserve[^:]*>::is_stale$|solend-mocks/src/state\.rs[^>]*>::is_stale$', 'solend', pred=lambda f_: 'SolendMinimalReserve' in f_.params[0][1])
+    a = eng.ex.fresh(f.params[0][1], 'rsv')
+    res = eng.run_fn(f, [a])
+    ob = Ob('C20.b.solend-is_stale', 'Solend reserve is stale iff its last-update slot < the current slot (a rate not refreshed in this slot is never accepted)', [f.name], 'loop-free; clock = symbolic sysvar'); ob.paths = len(res)
+    slot = fsym('rsv*', 'SolendMinimalReserve', 'last_update_slot')
+    for r, okc in ok_paths(res):
+        if ob.witness(eng, r, [okc]) is False: continue
+        ob.prove(eng, r, [okc], ev(r['ret'].payload[0][0]) == (slot < z3.Int('clock.slot')), 'stale <=> last_update_slot < clock.slot', role='solend-stale')
+    ob.need_witness()
+    return [ob]
+
+
+_t_ss = tasks
+def tasks(tier):
+    return _t_ss(tier) + [('solend_stale', t_solend_stale)]
